@@ -332,28 +332,33 @@ theorem SameCtl.trans {a b c : State} (h1 : SameCtl a b) (h2 : SameCtl b c) : Sa
   obtain ⟨b1, b2, b3, b4, b5⟩ := h2
   exact ⟨b1.trans a1, b2.trans a2, b3.trans a3, b4.trans a4, b5.trans a5⟩
 
-theorem writeStacked_ctl (env : Env) (m : Module) (s : State) (es : List (Nat × Bytes)) (n : Nat) :
+theorem portWriteSized_ctl (env : Env) (s : State) (m : Module) (a size : Nat) (d : Bytes) :
+    SameCtl s (portWriteSized env s m a size d).1 := by
+  unfold portWriteSized
+  split
+  · exact portWrite_ctl env s m a d
+  · exact SameCtl.rfl' s
+
+theorem portWriteSized_eq_ctl {env : Env} {s s' : State} {m : Module} {a size : Nat} {d : Bytes} {r : GR Nat}
+    (h : portWriteSized env s m a size d = (s', r)) : SameCtl s s' := by
+  have := portWriteSized_ctl env s m a size d
+  rw [h] at this
+  exact this
+
+theorem writeStacked_ctl (env : Env) (m : Module) (s : State) (es : List (Nat × Nat × Bytes)) (n : Nat) :
     SameCtl s (writeStacked env m s es n).1 := by
   induction es generalizing s n with
   | nil => simp [writeStacked, SameCtl]
   | cons e es ih =>
-    obtain ⟨a, data⟩ := e
-    have h := portWrite_ctl env s m a data
+    obtain ⟨a, size, data⟩ := e
     unfold writeStacked
     split
     · rename_i s' _ heq
-      have : s' = (portWrite env s m a data).1 := by rw [heq]
-      subst this
-      exact h.trans (ih _ _)
+      exact (portWriteSized_eq_ctl heq).trans (ih _ _)
     · rename_i s' _ heq
-      have : s' = (portWrite env s m a data).1 := by rw [heq]
-      subst this
-      exact h
+      exact portWriteSized_eq_ctl heq
     · rename_i s' heq
-      have : s' = (portWrite env s m a data).1 := by rw [heq]
-      subst this
-      exact h
-
+      exact portWriteSized_eq_ctl heq
 
 theorem portWrite_eq_ctl {env : Env} {s s' : State} {m : Module} {a : Nat} {d : Bytes} {r : GR Nat}
     (h : portWrite env s m a d = (s', r)) : SameCtl s s' := by
@@ -361,7 +366,7 @@ theorem portWrite_eq_ctl {env : Env} {s s' : State} {m : Module} {a : Nat} {d : 
   rw [h] at this
   exact this
 
-theorem writeStacked_eq_ctl {env : Env} {m : Module} {s s' : State} {es : List (Nat × Bytes)} {n k : Nat}
+theorem writeStacked_eq_ctl {env : Env} {m : Module} {s s' : State} {es : List (Nat × Nat × Bytes)} {n k : Nat}
     {r : GR Unit} (h : writeStacked env m s es n = (s', k, r)) : SameCtl s s' := by
   have := writeStacked_ctl env m s es n
   rw [h] at this
@@ -371,7 +376,7 @@ theorem writeStacked_eq_ctl {env : Env} {m : Module} {s s' : State} {es : List (
 theorem body_lastErr (env : Env) (s : State) (c : Call) : (body env s c).st.lastErr = s.lastErr := by
   cases c <;> simp only [body] <;> (repeat' split) <;> simp [State.setSlot]
   all_goals first
-    | exact (portWrite_eq_ctl (by assumption)).2.2.2.1
+    | exact (portWriteSized_eq_ctl (by assumption)).2.2.2.1
     | exact (writeStacked_eq_ctl (by assumption)).2.2.2.1
 
 /-- effect of a call body on `IS_LIB_INITIALIZED` -/
@@ -380,7 +385,7 @@ theorem body_libInit (env : Env) (s : State) (c : Call) :
       (match c with | .initLib => true | .closeLib => false | _ => s.libInit) := by
   cases c <;> simp only [body] <;> (repeat' split) <;> simp_all [State.setSlot]
   all_goals first
-    | exact (portWrite_eq_ctl (by assumption)).1
+    | exact (portWriteSized_eq_ctl (by assumption)).1
     | exact (writeStacked_eq_ctl (by assumption)).1
 
 /-- Only `TLOpen` / `TLClose` change `SystemModule::is_opened`. -/
@@ -389,7 +394,7 @@ theorem body_sysOpen (env : Env) (s : State) (c : Call)
     (body env s c).st.sysOpen = s.sysOpen := by
   cases c <;> simp only [body] <;> (repeat' split) <;> simp_all [State.setSlot]
   all_goals first
-    | exact (portWrite_eq_ctl (by assumption)).2.1
+    | exact (portWriteSized_eq_ctl (by assumption)).2.1
     | exact (writeStacked_eq_ctl (by assumption)).2.1
 
 /-- Only `TLOpenInterface` / `IFClose` / `TLClose` change `U3VInterfaceModule::is_opened`. -/
@@ -398,7 +403,7 @@ theorem body_ifOpen (env : Env) (s : State) (c : Call)
     (body env s c).st.ifOpen = s.ifOpen := by
   cases c <;> simp only [body] <;> (repeat' split) <;> simp_all [State.setSlot]
   all_goals first
-    | exact (portWrite_eq_ctl (by assumption)).2.2.1
+    | exact (portWriteSized_eq_ctl (by assumption)).2.2.1
     | exact (writeStacked_eq_ctl (by assumption)).2.2.1
 
 theorem Err.code_neg (e : Err) : e.code < 0 := by
@@ -455,22 +460,35 @@ theorem portWrite_eq_wf {env : Env} {s s' : State} {m : Module} {a : Nat} {d : B
   rw [e] at this
   exact this
 
-theorem writeStacked_wf (env : Env) (m : Module) (s : State) (es : List (Nat × Bytes)) (n : Nat)
+theorem portWriteSized_wf (env : Env) (s : State) (m : Module) (a size : Nat) (d : Bytes) (h : WF env s) :
+    WF env (portWriteSized env s m a size d).1 := by
+  unfold portWriteSized
+  split
+  · exact portWrite_wf env s m a d h
+  · exact h
+
+theorem portWriteSized_eq_wf {env : Env} {s s' : State} {m : Module} {a size : Nat} {d : Bytes} {r : GR Nat}
+    (h : WF env s) (e : portWriteSized env s m a size d = (s', r)) : WF env s' := by
+  have := portWriteSized_wf env s m a size d h
+  rw [e] at this
+  exact this
+
+theorem writeStacked_wf (env : Env) (m : Module) (s : State) (es : List (Nat × Nat × Bytes)) (n : Nat)
     (h : WF env s) : WF env (writeStacked env m s es n).1 := by
   induction es generalizing s n with
   | nil => simpa [writeStacked] using h
   | cons e es ih =>
-    obtain ⟨a, data⟩ := e
+    obtain ⟨a, size, data⟩ := e
     unfold writeStacked
     split
     · rename_i s' _ heq
-      exact ih _ _ (portWrite_eq_wf h heq)
+      exact ih _ _ (portWriteSized_eq_wf h heq)
     · rename_i s' _ heq
-      exact portWrite_eq_wf h heq
+      exact portWriteSized_eq_wf h heq
     · rename_i s' heq
-      exact portWrite_eq_wf h heq
+      exact portWriteSized_eq_wf h heq
 
-theorem writeStacked_eq_wf {env : Env} {m : Module} {s s' : State} {es : List (Nat × Bytes)} {n k : Nat}
+theorem writeStacked_eq_wf {env : Env} {m : Module} {s s' : State} {es : List (Nat × Nat × Bytes)} {n k : Nat}
     {r : GR Unit} (h : WF env s) (e : writeStacked env m s es n = (s', k, r)) : WF env s' := by
   have := writeStacked_wf env m s es n h
   rw [e] at this
@@ -481,7 +499,7 @@ theorem body_wf (env : Env) (s : State) (c : Call) (h : WF env s) : WF env (body
   all_goals first
     | exact h
     | exact WF_congr (s := s) rfl rfl h
-    | exact portWrite_eq_wf h (by assumption)
+    | exact portWriteSized_eq_wf h (by assumption)
     | exact writeStacked_eq_wf h (by assumption)
 
 end CamVerif.GenTL
